@@ -274,7 +274,7 @@ impl TryFrom<Metric> for MessageMetric {
         let metric_value = if value.value.is_some() {
             value.value.map(MetricValue::from)
         } else if let Some(is_null) = value.is_null {
-            if is_null {
+            if !is_null {
                 return Err(());
             }
             None
